@@ -65,10 +65,10 @@ FLOORS = {
               'transparency_compared': 4000, 'rejected_outcome_checked': 5000, 'child_runs': 10,
               'child_control_ok': 1, 'kind:attr': 1000, 'kind:compose': 2000, 'kind:strbuild': 800, 'kind:shadow': 600,
               'kind:fmt': 400},
-    'thorough': {'evaluations': 500000, 'distinct_nontrivial': 150000, 'roots_executed': 500000, 'call_events': 120000,
-                 'builtins_swept': len(X.BUILTIN_NAMES),
+    'thorough': {'evaluations': 330000, 'distinct_nontrivial': 110000, 'roots_executed': 600000, 'call_events': 150000,
+                 'name_reads': 350000, 'builtins_swept': len(X.BUILTIN_NAMES),
                  'sweep_cases': len(X.BUILTIN_NAMES) * (len(X.CALL_ARGS) + len(X.PLACEMENTS)),
-                 'route:const-text': 5000, 'transparency_compared': 90000, 'rejected_outcome_checked': 80000,
+                 'route:const-text': 5000, 'transparency_compared': 80000, 'rejected_outcome_checked': 40000,
                  'child_runs': 10, 'child_control_ok': 1},
 }
 SHARD_TIMEOUT = {'quick': 900, 'thorough': 5400}
@@ -80,6 +80,7 @@ TEXT_EVERY = 16
 ROUTES = ('eval', 'const', 'alert', 'input')
 BASE_NAMES = ('a', 'n', 't', 'p')
 WATCHDOG_S = 2          # CPU seconds of this process (ITIMER_VIRTUAL); a normal evaluation takes ~5 ms
+WATCHDOG_REPEAT_S = 0.25
 INPUT_NAME = 'src_'
 
 
@@ -161,14 +162,29 @@ class _Stdin(io.StringIO):
         pass
 
 
+WD = {'armed': False, 'fired': 0}
+
+
+def on_alarm(signum, frame):
+    # periodic: a Hang raised inside a weakref callback or __del__ is swallowed by the interpreter
+    if WD['armed']:
+        WD['fired'] += 1
+        raise S.Hang()
+
+
 def observe(fn):
     """one call into the real code under all monitors -> (obs, outcome)"""
     from tatsu.exceptions import ParseException
     real_stdin = sys.stdin
     sys.stdin = _Stdin('')
-    signal.setitimer(signal.ITIMER_VIRTUAL, WATCHDOG_S)
+    win = S.window()
+    obs = win.__enter__()
+    out = ('hang', f'{WATCHDOG_S}s')
+    WD['fired'] = 0
     try:
-        with S.window() as obs:
+        try:
+            WD['armed'] = True
+            signal.setitimer(signal.ITIMER_VIRTUAL, WATCHDOG_S, WATCHDOG_REPEAT_S)
             try:
                 out = ('ok', fn())
             except ParseException as e:
@@ -181,11 +197,18 @@ def observe(fn):
                 out = ('exc', type(e).__name__, str(e)[:200])
             except BaseException as e:  # noqa: BLE001
                 out = ('base', type(e).__name__, str(e)[:100])
-            finally:
-                signal.setitimer(signal.ITIMER_VIRTUAL, 0)
+        finally:
+            WD['armed'] = False
+            signal.setitimer(signal.ITIMER_VIRTUAL, 0)
+    except S.Hang:
+        out = ('hang', f'{WATCHDOG_S}s')
     finally:
+        WD['armed'] = False
         signal.setitimer(signal.ITIMER_VIRTUAL, 0)
+        win.__exit__(None, None, None)
         sys.stdin = real_stdin
+    if WD['fired']:
+        out = ('hang', f'{WATCHDOG_S}s')      # whatever the real code made of the watchdog exception
     return obs, out
 
 
@@ -441,9 +464,6 @@ def setup_process():
     except Exception:  # noqa: BLE001
         pass
     S.install()
-
-    def on_alarm(signum, frame):
-        raise S.Hang()
     signal.signal(signal.SIGVTALRM, on_alarm)
 
 
